@@ -173,6 +173,14 @@ impl Printer {
                 let a = self.t(x);
                 if fp { format!("(fp.abs {})", a) } else { format!("(ite (< {0} 0.0) (- {0}) {0})", a) }
             }
+            Node::F(F1::Signum, x) => {
+                let a = self.t(x);
+                if fp {
+                    format!("(ite (fp.isNaN {0}) (_ NaN 8 24) (ite (fp.isNegative {0}) (fp.neg one) one))", a)
+                } else {
+                    format!("(ite (< {0} 0.0) (- 1.0) 1.0)", a)
+                }
+            }
             Node::F(k, x) => {
                 let a = self.t(x);
                 let f = match k {
@@ -181,7 +189,7 @@ impl Printer {
                     F1::Sqrt => "f_sqrt",
                     F1::Tanh => "f_tanh",
                     F1::Cosh => "f_cosh",
-                    F1::Abs => unreachable!(),
+                    F1::Abs | F1::Signum => unreachable!(),
                 };
                 if self.occ_seen.insert((k, x)) {
                     self.occ.push((k, a.clone()));
@@ -252,7 +260,7 @@ impl Printer {
                             "(assert (=> (> {0} 0.0) (and (=> (>= {0} 1.0) (>= (f_ln {0}) 0.0)) (=> (<= {0} 1.0) (<= (f_ln {0}) 0.0)) (=> (= {0} 1.0) (= (f_ln {0}) 0.0)))))\n",
                             x
                         )),
-                        F1::Abs => {}
+                        F1::Abs | F1::Signum => {}
                     }
                 }
             }
